@@ -14,21 +14,22 @@ from .poolfam import PoolFacts, chunking_idiom, queue_call, tag_pass_through
 
 
 def run(prog: Program, rep: Report):
-    pf = PoolFacts(prog)
+    from .poolfam import pool_facts
+    pf = pool_facts(prog, rep, "C01.R13")
     rep.count("consumers", len(pf.consumers))
     reset_prestart = r1_raised_before_start(prog, rep, pf, "C01.R1")
-    r2_r3_feeder(prog, rep, pf, reset_prestart)
-    r4_tag(prog, rep, pf)
-    r5_consumer_accounting(prog, rep, pf)
-    r6_conservation(prog, rep, pf)
-    r7_buffer(prog, rep, pf)
-    r8_idiom(prog, rep, pf)
-    r9_call_local(prog, rep, pf, "C01.R9")
-    r10_input_once(prog, rep, pf)
-    feeder_early_exits(prog, rep, pf, "C01.R11")
+    rep.attempt(lambda: r2_r3_feeder(prog, rep, pf, reset_prestart))
+    rep.attempt(lambda: r4_tag(prog, rep, pf))
+    rep.attempt(lambda: r5_consumer_accounting(prog, rep, pf))
+    rep.attempt(lambda: r6_conservation(prog, rep, pf))
+    rep.attempt(lambda: r7_buffer(prog, rep, pf))
+    rep.attempt(lambda: r8_idiom(prog, rep, pf))
+    rep.attempt(lambda: r9_call_local(prog, rep, pf, "C01.R9"))
+    rep.attempt(lambda: r10_input_once(prog, rep, pf))
+    rep.attempt(lambda: feeder_early_exits(prog, rep, pf, "C01.R11"))
     from .ownership import rule_no_class_state
     pools = [pf.pool] + [c for c in prog.classes.values() if c is not pf.pool and pf.pool in (c.mro or []) and not c.is_external]
-    rule_no_class_state(prog, rep, "C01.R12", pools + [pf.worker])
+    rep.attempt(lambda: rule_no_class_state(prog, rep, "C01.R12", pools + [pf.worker] + [k for k in [prog.maybe_cls("Buffer", "windpyutils.buffers")] if k is not None]))
 
 
 # ---------------------------------------------------------------------------------------------- R1
@@ -169,20 +170,20 @@ def feeder_analysis(prog, pf: PoolFacts, reset_prestart: bool):
     return client, it, ex
 
 
-def r2_r3_feeder(prog, rep: Report, pf: PoolFacts, reset_prestart: bool):
-    rep.rule("C01.R2", "publication order: in the feeder every counter write and work put precedes the flag's falsy write and "
+def r2_r3_feeder(prog, rep: Report, pf: PoolFacts, reset_prestart: bool, R2: str = "C01.R2", R3: str = "C01.R3"):
+    rep.rule(R2, "publication order: in the feeder every counter write and work put precedes the flag's falsy write and "
              "nothing polled is written after it; the consumer's completion test reads the flag before the counter", floor=3)
-    rep.rule("C01.R3", "send accounting: on every path of the feeder each work put is followed by one `counter += 1` before the "
+    rep.rule(R3, "send accounting: on every path of the feeder each work put is followed by one `counter += 1` before the "
              "next put, the flag clear or the stop break; the counter is reset once per call", floor=1)
     f = pf.feeder_run
     rep.fn(f)
     client, it, ex = feeder_analysis(prog, pf, reset_prestart)
     rep.count("abstract_states", len(it.states_seen))
     if it.unrecognised:
-        rep.unrec("C01.R2", f, "writer-order", "; ".join(it.unrecognised))
+        rep.unrec(R2, f, "writer-order", "; ".join(it.unrecognised))
         return
     if client.puts == 0:
-        rep.unrec("C01.R3", f, "accounting", "no put on the work queue found in the feeder")
+        rep.unrec(R3, f, "accounting", "no put on the work queue found in the feeder")
         return
     probs = sorted(set(client.problems))
     finals = ex.normal | ex.ret
@@ -190,11 +191,11 @@ def r2_r3_feeder(prog, rep: Report, pf: PoolFacts, reset_prestart: bool):
         probs.append((f.node.lineno, "R3", "the feeder can end with a work put that was never counted"))
     r2 = [p for p in probs if p[1] == "R2"]
     r3 = [p for p in probs if p[1] in ("R3", "R1")]
-    rep.check("C01.R2", f, "writer-order", not r2, "counter writes and work puts all precede the final flag clear",
+    rep.check(R2, f, "writer-order", not r2, "counter writes and work puts all precede the final flag clear",
               "; ".join(m for _, _, m in r2),
               scenario="consumer reads flag False, then the late counter increment/put happens: the last chunk is never waited for",
               line=r2[0][0] if r2 else None)
-    rep.check("C01.R3", f, "accounting", not r3, f"every work put is followed by one counter increment ({client.puts} put events)",
+    rep.check(R3, f, "accounting", not r3, f"every work put is followed by one counter increment ({client.puts} put events)",
               "; ".join(m for _, _, m in r3),
               scenario="the consumer compares finished chunks with the counter: an uncounted put loses its results at the end of "
                        "the call (and they surface in the next call), a double count hangs the call", line=r3[0][0] if r3 else None)
@@ -204,7 +205,7 @@ def r2_r3_feeder(prog, rep: Report, pf: PoolFacts, reset_prestart: bool):
         test = pf.consumer_loop[c.qual].test
         order = _polled_read_order(test, c, pf)
         ok = bool(order) and order[0] == pf.flag and pf.counter in order
-        rep.check("C01.R2", c, "reader-order", ok, f"completion test reads {' then '.join(order)}",
+        rep.check(R2, c, "reader-order", ok, f"completion test reads {' then '.join(order)}",
                   f"the completion test `{src(test)}` reads {' then '.join(order) or 'no polled field'}: the counter must be read "
                   f"after the flag was seen False",
                   scenario="consumer reads the counter (5 sent, 5 finished), the feeder sends chunk 6 and clears the flag, the "
